@@ -94,10 +94,11 @@ def expand_locals(expr: ast.expr, amap: Dict[str, ast.expr], keep=frozenset()) -
 def norm_opts(expr: ast.expr) -> str:
     """Normal form of an options expression: ``options or {}`` == ``options``."""
     e = expr
-    while isinstance(e, ast.BoolOp) and isinstance(e.op, ast.Or) and len(e.values) == 2:
-        b = e.values[1]
-        if isinstance(b, ast.Dict) and not b.keys:
+    while True:
+        if isinstance(e, ast.BoolOp) and isinstance(e.op, ast.Or) and len(e.values) == 2 and isinstance(e.values[1], ast.Dict) and not e.values[1].keys:
             e = e.values[0]
+        elif isinstance(e, ast.IfExp) and isinstance(e.orelse, ast.Dict) and not e.orelse.keys and ast.unparse(e.test) == ast.unparse(e.body):
+            e = e.body          # ``options if options else {}`` is ``options or {}``
         else:
             break
     return ast.unparse(e)
